@@ -84,7 +84,12 @@ CHECKS = {
              "is exactly the pointwise partition; an unsound hint yields a TLC counterexample. Binding: iter_range of the real code on "
              "corpus / hint-branch family / random expressions with windows from minutes to open-ended; EVERY day of the window is "
              "evaluated with schedule_at (run-length encoded) and Trace_Iter requires the emitted intervals to equal the declarative "
-             "stream, so no skipped day goes unexamined however long the skip.",
+             "stream, so no skipped day goes unexamined however long the skip. Hints.tla transcribes the day-jump hints (year / month / "
+             "week / holiday selectors, their combination, the expression level with is_constant and the spill test): MC_Hints proves "
+             "their contract over bounded parameters; the real next_change_hint (hook) is recorded on (expression, day) pairs and "
+             "Trace_Hints judges it on the library's own tilings of the skipped days (verdict) and compares it with the transcription "
+             "(diagnostic). Gen_Constant: every constant-shaped rule sequence TLC can build over a small alphabet goes through the real "
+             "iterator.",
         note="Trusted: TLC, the library's own schedule_at as oracle (as the property states), the harness's run-length encoding.",
         design_ref="8/C02",
     ),
@@ -115,7 +120,9 @@ CHECKS = {
         text="Model: MC_Iterator_bound explores every schedule/window/hint with B = 1 and 2 days: the first interval's end is exact or none, "
              "exact whenever the exact change is within B-24h, none whenever beyond B, state unchanged. Binding: next_change/state with "
              "B from 1 day to 30 years at instants inside long intervals, compared with the library's exact answers (which C03's "
-             "re-derivation checks in the same event).",
+             "re-derivation checks in the same event); a sweep measures the exact distance D for family x critical instants and asks with "
+             "bounds straddling D and D + 24 h (both edges of the contract); every bounded event also asks a window from the bounded "
+             "evaluator, whose intervals must partition it (BoundPartition, model checked; the pinned behaviour is refuted).",
         note="Trusted: as C03; the exact answer is the library's unbounded next_change.",
         design_ref="8/C16",
     ),
@@ -148,7 +155,10 @@ CHECKS = {
              "the pinned tree's is_val TLC finds the counterexample. The real normaliser's printed result equals the model's on every "
              "enumerated sequence (string equality, 31878/31878). Trace_Normalize: for corpus / model / random expressions the schedules of e "
              "and normalize(e) are equal on every day of whole sample years between the year cut points of both (run-length encoded) and on "
-             "probe days, under holiday / sun-event contexts.",
+             "probe days, under holiday / sun-event contexts. Frames.tla (inclusive / wrapping ranges <-> half-open pieces, theorems in "
+             "MC_Frames) composed with the paving gives the normal form of 5100 sentences over each real dimension (weekday, month, week, "
+             "year): equal to the real normaliser's output on all of them. Gen_RuleMix: sequences combining a closed rule, a span passing "
+             "midnight and a fallback rule, emitted by TLC, go through the real normaliser.",
         note="Trusted: TLC; the library's own evaluation as oracle (differential); sample years instead of all years; 2-D model of a 5-D paving.",
         design_ref="8/C07",
     ),
